@@ -74,7 +74,7 @@ class Sym:
 
     def local(self, l, d):
         b = self.b
-        if d > 24:
+        if d > 60:
             return "_%d" % l
         if 1 <= l <= b.d["argc"]:
             if b.parent and l == 1:
